@@ -86,7 +86,9 @@ func (f *FaultBank) SpendableCoins(ctx sdk.Context, addr sdk.AccAddress) sdk.Coi
 func (f *FaultBank) SetDenomMetaData(ctx sdk.Context, md banktypes.Metadata) {
 	f.K.SetDenomMetaData(ctx, md)
 }
-func (f *FaultBank) GetSupply(ctx sdk.Context, denom string) sdk.Coin { return f.K.GetSupply(ctx, denom) }
+func (f *FaultBank) GetSupply(ctx sdk.Context, denom string) sdk.Coin {
+	return f.K.GetSupply(ctx, denom)
+}
 func (f *FaultBank) GetBalance(ctx sdk.Context, addr sdk.AccAddress, denom string) sdk.Coin {
 	return f.K.GetBalance(ctx, addr, denom)
 }
